@@ -322,6 +322,14 @@ fn err_name(e: &RequestAttemptError, full: bool) -> String {
     }
 }
 
+/// The oracle's OWN notion of "serial consistency", written from the CQL protocol (native_protocol_v4 §3:
+/// SERIAL = 0x0008, LOCAL_SERIAL = 0x0009) - never the driver's `Consistency::is_serial()`, which is code under test.
+fn oracle_is_serial(c: Consistency) -> bool {
+    let by_variant = matches!(c, Consistency::Serial | Consistency::LocalSerial);
+    let by_code = matches!(c as u16, 0x0008 | 0x0009);
+    by_variant || by_code
+}
+
 /// The property's list, verbatim: "a failure that proves the previous attempt was not applied
 /// (unavailable, bootstrapping, no free stream id on the client, read timeout)".
 fn proves_not_applied(e: &RequestAttemptError) -> bool {
@@ -594,7 +602,7 @@ fn run_dec(pol: Pol, idem: bool, steps: &str, ctx: &mut Ctx) -> String {
                 pol.name(), d.name(), err_name(err, true), i
             ));
         }
-        if pol == Pol::Default && cl.is_serial() && d != Dec::Dont {
+        if pol == Pol::Default && oracle_is_serial(*cl) && d != Dec::Dont {
             ctx.fail(format!("default policy decided {} at serial consistency {} (step {})", d.name(), cl_name(*cl), i));
         }
         if pol == Pol::Fallthrough && d != Dec::Dont {
@@ -780,7 +788,7 @@ fn run_spec(pol: Pol, idem: bool, w2: &str, outs: &str, ctx: &mut Ctx) -> String
             ctx.fail(format!("{} attempts on target {} (pool gave {} connections; one fiber may send at most 1 + {} there)", on_t, t, plan[t], k));
         }
     }
-    if (pol == Pol::Fallthrough || (pol == Pol::Default && cl0.is_serial())) && n > fibers {
+    if (pol == Pol::Fallthrough || (pol == Pol::Default && oracle_is_serial(cl0))) && n > fibers {
         ctx.fail(format!("{} attempts by at most {} fiber(s) of a policy that never retries here", n, fibers));
     }
     if !idem {
@@ -930,7 +938,7 @@ fn run_exec(pol: Option<Pol>, idem: bool, clplan: &str, outs: &str, ctx: &mut Ct
         }
     }
     // 2. the default policy never retries at serial consistency
-    if pol == Some(Pol::Default) && cl0.is_serial() && n > 1 {
+    if pol == Some(Pol::Default) && oracle_is_serial(cl0) && n > 1 {
         ctx.fail(format!("default policy at {} consistency: {} attempts", cl_name(cl0), n));
     }
     if pol == Some(Pol::Fallthrough) && n > 1 {
@@ -1298,7 +1306,7 @@ pub fn generate(rng: &mut Rng, tier: Tier, emit: &mut dyn FnMut(String)) {
     for pol in pols {
         for idem in ["i", "n"] {
             for plan_len in 1..=4usize {
-                for cl in ["quorum", "eachquorum", "serial", "two"] {
+                for cl in ["quorum", "eachquorum", "serial", "localserial", "two"] {
                     for e in ALPHABET[1..].iter().map(|s| s.to_string()).chain(classes.iter().filter(|_| !quick).cloned()) {
                         let outs = vec![e; plan_len + 3];
                         emit(format!("run {}/{} {}/{} {}", pol.name(), idem, cl, "1".repeat(plan_len), outs.join(";")));
